@@ -198,7 +198,7 @@ func runWorker(prop, tier string, seed int64, w int) (out workerOut) {
 			profProp = *fProfile
 		}
 		res := run.Exec(run.Config{Seed: s, Steps: pl.steps, Profile: gen.ProfileFor(profProp), Genesis: variant, Monitors: mons, Rep: rep,
-			Raw: prop == "C03", Bootstrap: true, Whale: prop == "C05" || prop == "C07" || prop == "C01" || prop == "C11", ExponentTail: prop == "C01" || prop == "C02" || prop == "C03" || prop == "C04", SeedTag: fmt.Sprintf("s%d-w%d-%s", seed, w, variant)})
+			Raw: prop == "C03", Bootstrap: true, Whale: prop == "C05" || prop == "C07" || prop == "C01" || prop == "C11" || prop == "C03" || prop == "C06" || prop == "C12", ExponentTail: prop == "C01" || prop == "C02" || prop == "C03" || prop == "C04", SeedTag: fmt.Sprintf("s%d-w%d-%s", seed, w, variant)})
 		if res.Err != nil {
 			runErrs = append(runErrs, res.Err.Error())
 		}
